@@ -277,6 +277,8 @@ def check_lockstep(prog: Program, rep: Report, roles: LiftRoles) -> None:
                           if isinstance(n, ast.Attribute))
             if not touches:
                 continue
+            if fn.name == "reset":
+                continue            # reset empties both lists (R5.2-reset-complete); shrinking is judged everywhere else
             rep.ob("R5.2-lock-step", all(a == b for a, b in paths), Loc(c.file, fn.lineno, f"{c.name}.{fn.name}"),
                    f"{c.name}.{fn.name}: appends to the two parallel lists per path {sorted(set(paths))}",
                    "the list of negated rates and the list of identifiers must grow together on every path (index i of one "
@@ -284,6 +286,16 @@ def check_lockstep(prog: Program, rep: Report, roles: LiftRoles) -> None:
     for name in ("reset", "__init__"):
         fn = roles.method(roles.base, name)
         cleared = {a: norm(v) for a, v in _self_assigns(fn)}
+        # emptying a list in place (`self.x.clear()`, `del self.x[:]`) clears it as well
+        for n_ in ast.walk(fn):
+            if isinstance(n_, ast.Expr) and isinstance(n_.value, ast.Call) and isinstance(n_.value.func, ast.Attribute) \
+                    and n_.value.func.attr == "clear" and not n_.value.args and self_attr(n_.value.func.value):
+                cleared.setdefault(self_attr(n_.value.func.value), "[]")
+            if isinstance(n_, ast.Delete):
+                for t_ in n_.targets:
+                    if isinstance(t_, ast.Subscript) and isinstance(t_.slice, ast.Slice) and t_.slice.lower is None and t_.slice.upper is None \
+                            and self_attr(t_.value):
+                        cleared.setdefault(self_attr(t_.value), "[]")
         want = {roles.neg: "[]", roles.ids: "[]", roles.rec: "False"}
         ok = all(cleared.get(k) == v for k, v in want.items()) and cleared.get(roles.pos) in ("0.0", "0") \
             and cleared.get(roles.sump) in ("0.0", "0")
@@ -329,6 +341,14 @@ def _bind(target: ast.AST, desc, env: Dict[str, str]) -> bool:
 def _walk_value(e: ast.AST, env: Dict[str, str], roles: LiftRoles) -> Optional[str]:
     if isinstance(e, ast.Name):
         return env.get(e.id)
+    if isinstance(e, ast.BinOp) and isinstance(e.op, (ast.Add, ast.Sub)):
+        # the prefix sum shifted by something that is not part of the walk (a tolerance, a constant): not the prefix sum
+        l, r = _walk_value(e.left, env, roles), _walk_value(e.right, env, roles)
+        free = lambda x: not any(isinstance(n, ast.Name) and n.id in env for n in ast.walk(x))   # noqa: E731
+        if l == PREFIX and r is None and free(e.right):
+            return f"prefix sum {'+' if isinstance(e.op, ast.Add) else '-'} {norm(e.right)}"
+        if r == PREFIX and l is None and free(e.left) and isinstance(e.op, ast.Add):
+            return f"prefix sum + {norm(e.left)}"
     if isinstance(e, ast.Subscript) and self_attr(e.value) in (roles.neg, roles.ids) and _walk_value(e.slice, env, roles) == IDX:
         return NEG if self_attr(e.value) == roles.neg else IDS
     return None
@@ -348,6 +368,14 @@ def selection_walk(body: List[ast.stmt], roles: LiftRoles):
         return False, ["not exactly one loop"], None
     loop = loops[0]
     env: Dict[str, str] = {}
+    it_ = loop.iter
+    if isinstance(it_, ast.Call) and norm(it_.func) == "range" and len(it_.args) == 3 and isinstance(it_.args[2], ast.UnaryOp) \
+            and isinstance(it_.args[2].op, ast.USub) and norm(it_.args[2].operand) == "1" and isinstance(it_.args[1], ast.Constant) \
+            and isinstance(it_.args[1].value, int) and it_.args[1].value >= 0 \
+            and any(norm(it_.args[0]) == f"len(self.{a_}) - 1" for a_ in (roles.neg, roles.ids)):
+        # a walk from the last index downwards that stops before reaching index 0: the first unit can never be selected
+        return True, [f"the walk `{norm(it_)}` never tests index {it_.args[1].value}: the unit at the head of the table is never selected by its "
+                      f"own interval"], None
     desc = _stream(loop.iter, roles)
     if desc is None or not _bind(loop.target, desc, env):
         return False, [f"iteration source not understood: {norm(loop.iter)}"], None
@@ -809,7 +837,32 @@ def check_purity(prog: Program, rep: Report, roles: LiftRoles) -> None:
         body = ast.Module(body=body_without_docstring(fn), type_ignores=[])
         names = {n.id for n in ast.walk(body) if isinstance(n, ast.Name) and isinstance(n.ctx, ast.Load)}
         local = {n.id for n in ast.walk(body) if isinstance(n, ast.Name) and isinstance(n.ctx, ast.Store)}
-        foreign = names - local - {"self", "random", "super", "enumerate", "sum", "len", "range", "LiftingSchemeError", "zip", "min", "max", "accumulate", "itertools"}
+        import builtins as _bi
+        foreign = names - local - {"self", "random", "super", "LiftingSchemeError", "accumulate", "itertools", "bisect", "bisect_left", "bisect_right",
+                                   "islice", "takewhile", "chain", "operator", "math"} - set(dir(_bi))
+
+        def pure_function(name_: str, depth_: int = 0) -> bool:
+            """a function of the package that reads nothing but its arguments (and pure functions): no state, no random numbers"""
+            r_ = None
+            for k_ in prog.mro(c):          # (a helper of a base class may have been read in place: the name lives in that module)
+                r_ = prog.resolve_name(k_.module, name_)
+                if r_ is not None:
+                    break
+            if not (isinstance(r_, tuple) and len(r_) == 3 and r_[0] == "func" and isinstance(r_[2], ast.FunctionDef)) or depth_ > 2:
+                return False
+            f_ = r_[2]
+            ps_ = {a.arg for a in f_.args.args + f_.args.kwonlyargs}
+            loads_ = {n.id for b_ in f_.body for n in ast.walk(b_) if isinstance(n, ast.Name) and isinstance(n.ctx, ast.Load)}
+            for b_ in f_.body:          # (annotations are not reads)
+                for n in ast.walk(b_):
+                    if isinstance(n, ast.AnnAssign):
+                        loads_ -= {x.id for x in ast.walk(n.annotation) if isinstance(x, ast.Name)}
+            stores_ = {n.id for n in ast.walk(f_) if isinstance(n, ast.Name) and isinstance(n.ctx, ast.Store)}
+            if any(isinstance(n, (ast.Global, ast.Nonlocal)) for n in ast.walk(f_)):
+                return False
+            rest_ = loads_ - ps_ - stores_ - set(dir(_bi)) - {"accumulate", "itertools", "islice", "takewhile", "chain", "bisect_left", "bisect_right"}
+            return all(pure_function(x_, depth_ + 1) for x_ in rest_)
+        foreign = {x_ for x_ in foreign if not pure_function(x_)}
         writes = [n for n in ast.walk(fn) if isinstance(n, ast.Call) and isinstance(n.func, ast.Attribute)
                   and n.func.attr in ("append", "pop", "remove", "insert", "clear") and self_attr(n.func.value)]
         rep.ob("R5.6-selection-pure", not foreign and not writes, Loc(c.file, fn.lineno, f"{c.name}.get_active_identifier"),
@@ -854,7 +907,7 @@ def analyse(src: Source) -> List[Report]:
     rep.expect_min("R5.3-selection-walk", 3)
     rep.expect_min("R5.4-reset-before-insert", 3)
     rep.expect_min("R5.4-insert-before-get", 3)
-    rep.expect_min("R5.5-antisymmetric-table", 4)
+    rep.expect_min("R5.5-antisymmetric-table", 2)   # 4 on the pinned tree; duplicated summing loops may be merged into one shared helper
     rep.expect_min("R5.7-table-order-independent-of-active-unit", 1)
     return [rep]
 
@@ -913,4 +966,8 @@ TWINS = [
          "        random_number = random.uniform(0.0, sum(self._negative_lifting_rates))\n",
          "        total = sum(self._negative_lifting_rates)\n        random_number = random.uniform(0.0, total)\n"),
     Edit("insert: flipped rate test", LIFT, "        if lifting_rate > 0.0:\n", "        if not lifting_rate <= 0.0:\n"),
+]
+MUTANTS += [
+    Edit("inside-first: absolute tolerance in the selection test", "jellyfysh/lifting/inside_first_lifting.py",
+         "            if self._random_position <= summed_lifting_rate:", "            if self._random_position <= summed_lifting_rate + 1.0e-13:", "R5.3"),
 ]
